@@ -184,6 +184,16 @@ package models
 //@   modifies nothing
 //@   ensures result == urlKey(u)
 
+// flattenTree$1 (the recursive walker): lists the node it is given and descends into every one
+// of its children - one recursive visit per entry of the children list (ghost counter), whatever
+// the node's status. The recursion itself goes through the closure variable and is not unfolded.
+//@ func flattenTree$1
+//@   property C11,C08
+//@   local nKids int = 0
+//@   after dyn(traverse)#1: nKids = nKids + 1
+//@   loop range invariant [every-child] nKids == rangeindex + 1
+//@   ensures [visits-children] node != nil && old(forall(j, 0, len(node.children), node.children[j] != nil)) ==> nKids == old(len(node.children)) // C08: within one seed's tree the same URL is never fetched by two different non-seed nodes (the de-duplication pass sees every node); C11: de-duplication leaves one node per URL
+
 //@ func flattenTree
 //@   opaque
 //@   modifies nothing
@@ -246,8 +256,8 @@ package models
 //@   property C09
 //@   attr deterministic
 //@   modifies nothing
-//@   loop query invariant [fold] reencAcc(sbtext(buf), query) == reencAcc("", old(query)) // C09: well-formed query parameters keep their order and multiplicity
-//@   ensures [order] result == reenc(query)
+//@   loop query invariant [fold] @C09,C08 reencAcc(sbtext(buf), query) == reencAcc("", old(query)) // C09: well-formed query parameters keep their order and multiplicity
+//@   ensures [order] @C09,C08 result == reenc(query) // C08: the canonical URL two items are compared by is this re-encoding (a parameter dropped by mistake makes different URLs look seen)
 
 // URLToString: the query is re-encoded except for the three signed reddit hosts, the host is
 // converted to ASCII (idna; lib spec c09_idna.spec), the result is net/url's serialisation of
@@ -292,6 +302,7 @@ package models
 //@   modifies nothing
 //@   ensures (result1 == nil) == (i.parent == nil)
 //@   ensures result1 == nil ==> freshslice(result0) && forall(j, 0, len(result0), result0[j] != nil)
+//@   ensures [distinct] forall(a, 0, len(result0), forall(b, 0, len(result0), a != b ==> result0[a] != result0[b])) // the nodes of one level of a tree are different nodes
 //@   ensures targetLevel == 0 && result1 == nil ==> len(result0) == 1 && result0[0] == i
 
 // Traverse applies fn to the node and to every descendant: it writes nothing itself, so its
